@@ -363,6 +363,13 @@ func c06Run(c *core.Ctx) {
 			{4, 5, "\n\nt\nk1,k2\n\"v\n1\",v2\nw1,w2\n", [][]*string{{sp("v\n1"), sp("v2")}, {sp("w1"), sp("w2")}}, false},
 			{1, 4, "k1,k2\n\n\"x\ny\"\nv1,v2\n", [][]*string{{sp("v1"), sp("v2")}}, false},
 			{1, 2, "k1,k2\nv1,v2\n\n\nw1,w2\n", [][]*string{{sp("v1"), sp("v2")}, {sp("w1"), sp("w2")}}, false},
+			// blank lines right before the row jumped to
+			{1, 4, "k1,k2\n\n\nv1,v2\nw1,w2\n", [][]*string{{sp("v1"), sp("v2")}, {sp("w1"), sp("w2")}}, false},
+			{2, 3, "\nk1,k2\nv1,v2\n", [][]*string{{sp("v1"), sp("v2")}}, false},
+			{3, 5, "t\n\nk1,k2\n\nv1,v2\nw1,w2\n", [][]*string{{sp("v1"), sp("v2")}, {sp("w1"), sp("w2")}}, false},
+			{3, 5, "\n\nk2,k1\n\nv1,v2\n", nil, true},
+			{2, 6, "t\nk1,k2\n\n\n\n\"v\n1\",v2\nw1,w2\n", [][]*string{{sp("v\n1"), sp("v2")}, {sp("w1"), sp("w2")}}, false},
+			{1, 3, "k1,k2\n\nv1,v2\n\n", [][]*string{{sp("v1"), sp("v2")}}, false},
 		} {
 			st := fmt.Sprintf(`{`+hdr("csv")+`,"file_declaration":{"delimiter":",","header_row_index":%d,"data_row_index":%d,"columns":[`+colDecl+`]},"transform_declarations":{"FINAL_OUTPUT":{"object":{`+colOut+`}}}}`, lay.hdrIdx, lay.dataIdx)
 			emit(c06Case{Family: fmt.Sprintf("csv|header_row_index=%d data_row_index=%d over multi-line and blank lines", lay.hdrIdx, lay.dataIdx), Schema: st, Input: []byte(lay.input), Want: lay.want, Fatal: lay.fatal}, nil, "csv-header-jump")
